@@ -204,6 +204,27 @@ func runC19(c *Ctx) error {
 		if i%97 == 0 {
 			r.Sample(cs)
 		}
+		// two calls of one builder yield payloads that share no mutable object (nothing is kept between calls)
+		if i%3 == 0 {
+			seed := rng.U64()
+			b1, b2 := genBuilder(NewRng(seed)), genBuilder(NewRng(seed)) // equal arguments, allocated separately
+			shared := run(func() string {
+				var c1, c2 message.IKEPayloadContainer
+				if err := b1.call(&c1); err != nil || len(c1) == 0 {
+					return "-"
+				}
+				if err := b2.call(&c2); err != nil || len(c2) == 0 {
+					return "-"
+				}
+				if hits := sharedMemory(c1[len(c1)-1], c2[len(c2)-1]); len(hits) > 0 {
+					return fmt.Sprint(hits)
+				}
+				return "-"
+			})
+			if shared != "-" && shared != "fault" {
+				fail("two payloads built by separate calls share a mutable object (state kept between builder calls)", fmt.Sprintf("(build-twice %s)", b1.args), "no shared memory", shared)
+			}
+		}
 		model, err := c.M.Ask(cs)
 		if err != nil {
 			return err
